@@ -45,14 +45,18 @@ class Ctx:
         return r
 
     def choose(self, n, label=""):
-        """n-way nondeterministic choice (environment answer or undecided branch)"""
+        """n-way nondeterministic choice (environment answer or undecided branch).  Decisions are replayed
+        by position; the label guards against a replay that diverges because the assumed invariants changed
+        in the meantime (Houdini): such a prefix is abandoned (Diverged) and re-explored in the next round."""
         if self.di < len(self.decisions):
-            c = self.decisions[self.di]
+            lab, c = self.decisions[self.di]
+            if lab != label or c >= n:
+                raise Diverged(f"{lab} vs {label}")
         else:
             c = 0
             for alt in range(1, n):
-                self.pending.append(self.decisions[: self.di] + [alt])
-            self.decisions.append(0)
+                self.pending.append(self.decisions[: self.di] + [(label, alt)])
+            self.decisions.append((label, 0))
         self.di += 1
         self.labels.append((label, c))
         return c
@@ -74,7 +78,7 @@ class Ctx:
             return False
         if not can_t and not can_f:
             raise Infeasible()
-        c = self.choose(2, "branch")
+        c = self.choose(2, "branch:" + str(hash(cond.sexpr())))
         if c == 0:
             self.assume(cond)
             return True
@@ -88,10 +92,10 @@ class Ctx:
 
     def mk_eq(self, a, b):
         """eq(a,b) for user `==`: symmetric by construction, reflexive via instantiated axiom (A7)"""
-        if a.get_id() > b.get_id():
+        if a.sexpr() > b.sexpr():
             a, b = b, a
         t = eq(a, b)
-        k = (a.get_id(), b.get_id())
+        k = (a.sexpr(), b.sexpr())
         if k not in self.eq_seen:
             self.eq_seen.add(k)
             self.assume(z3.Implies(a == b, t))
@@ -179,6 +183,9 @@ def identical(a, b):
     if isinstance(a, ExcClass) and isinstance(b, ExcClass):
         return a.name == b.name
     if isinstance(a, (SInt, SBool)) or isinstance(b, (SInt, SBool)):
+        other = b if isinstance(a, (SInt, SBool)) else a
+        if other is None or isinstance(other, (Sentinel, Obj, str, tuple, SList)):
+            return False
         raise Unsupported("identity of symbolic scalars")
     if isinstance(a, (int, str, bool, tuple)) and not isinstance(a, bool) and type(a) is type(b):
         return a == b if not isinstance(a, tuple) else a is b
@@ -961,6 +968,8 @@ class Interp:
             if name == "args":
                 return tuple(o.args)
         if isinstance(o, BuiltinModule):
+            if o.name == "builtins":
+                return Builtin(name)
             return Builtin(f"{o.name}.{name}")
         if isinstance(o, UserCM):
             if name in ("__aenter__", "__aexit__") and o.kind == "async":
@@ -1839,6 +1848,17 @@ class Frame:
 
     def comp(self, e, kind):
         first = yield from self.ev(e.generators[0].iter)
+        from .builtins_model import SRows
+        g0 = e.generators[0]
+        if (kind == "list" and len(e.generators) == 1 and not g0.is_async and not g0.ifs and isinstance(e.elt, ast.Name)
+                and isinstance(first, SList) and first.seq is not None):
+            # pure projection over a symbolic list: summarised as the column itself (no user code can run)
+            if isinstance(first, SRows) and isinstance(g0.target, ast.Tuple) and len(g0.target.elts) == len(first.cols):
+                names = [t.id if isinstance(t, ast.Name) else None for t in g0.target.elts]
+                if e.elt.id in names:
+                    return SList(seq=first.cols[names.index(e.elt.id)])
+            elif not isinstance(first, SRows) and isinstance(g0.target, ast.Name) and g0.target.id == e.elt.id:
+                return SList(seq=first.seq)
         if e.generators[0].is_async:
             first = yield from self.aiter_of(first, e)
         fn = Closure(e, self.fn.module, env=self.chain, cls=self.fn.cls, name=f"<{kind}comp>")
